@@ -238,14 +238,22 @@ func (its *jsonPrimitive) getTargetFromPatch(path string) (jsonType, string, err
 	if len(paths) < 2 { // "" (the whole document) or a pointer that does not start with "/"
 		return nil, "", errors.DatatypeInvalidPatch.New(its.common.L(), "incorrect path: %v", path)
 	}
-	key := paths[len(paths)-1]
-	paths = paths[1 : len(paths)-1]
+	// the reference tokens of a JSON pointer are escaped (RFC 6901): "~1" is "/", "~0" is "~"
+	key := unescapeReferenceToken(paths[len(paths)-1])
+	var parents []string
+	for _, p := range paths[1 : len(paths)-1] {
+		parents = append(parents, unescapeReferenceToken(p))
+	}
 
-	target, err := its.getTargetByPaths(paths)
+	target, err := its.getTargetByPaths(parents)
 	if err != nil {
 		return nil, "", err
 	}
 	return target, key, nil
+}
+
+func unescapeReferenceToken(token string) string {
+	return strings.ReplaceAll(strings.ReplaceAll(token, "~1", "/"), "~0", "~")
 }
 
 func (its *jsonPrimitive) funeral(j jsonType, ts *model.Timestamp) {
